@@ -26,13 +26,13 @@ __CPROVER_ensures(__CPROVER_return_value == g_is_end_interrupt)
 ;
 _Bool compile_policy_impl_is_event_deferred(fsm_t* self, event_t event)
 __CPROVER_requires(EV_EQ(event, g_evt) && g_nproc == 0)
-__CPROVER_requires(!BLOCKED)                                                     /*@ob C11.blocked-machine-processes-nothing */
+__CPROVER_requires(!BLOCKED)                                                     /*@ob C11,C04.blocked-machine-processes-nothing */
 __CPROVER_assigns()
 __CPROVER_ensures(__CPROVER_return_value == g_is_deferred_now)
 ;
 void compile_policy_impl_defer_event(fsm_t* self, event_t event, _Bool next_rtc_seq)
 __CPROVER_requires(EV_EQ(event, g_evt))                                          /*@ob C04,C18.stored-event-keeps-type-and-payload */
-__CPROVER_requires(!BLOCKED)                                                     /*@ob C11.blocked-machine-processes-nothing */
+__CPROVER_requires(!BLOCKED)                                                     /*@ob C11,C04.blocked-machine-processes-nothing */
 __CPROVER_requires(g_ndefer == 0 && g_nproc == 0)                                /*@ob C04,C05.stored-exactly-once-and-not-processed */
 __CPROVER_requires(!next_rtc_seq)                                                /*@ob C05.occurrence-stored-by-process-event-is-eligible-in-the-current-cycle */
 __CPROVER_assigns(g_ndefer)
@@ -40,8 +40,8 @@ __CPROVER_ensures(g_ndefer == 1)
 ;
 process_result do_process_event(fsm_t* self, event_t event, process_info info)
 __CPROVER_requires(g_nproc == 0 && g_ndefer == 0 && !g_exc)
-__CPROVER_requires(!BLOCKED)                                                     /*@ob C11.blocked-machine-processes-nothing */
-__CPROVER_requires(self->m_event_processing)                                     /*@ob C04.whole-step-runs-with-the-busy-mark-set */
+__CPROVER_requires(!BLOCKED)                                                     /*@ob C11,C04.blocked-machine-processes-nothing */
+__CPROVER_requires(self->m_event_processing)                                     /*@ob C04,C10.whole-step-runs-with-the-busy-mark-set */
 __CPROVER_requires(EV_EQ(event, g_evt) && info == g_info)
 __CPROVER_assigns(g_nproc, g_handled, g_exc, g_threw, g_nt_calls)
 __CPROVER_ensures(g_nproc == 1 && 0 <= g_handled && g_handled <= 7 && (int)__CPROVER_return_value == g_handled)
@@ -57,7 +57,7 @@ __CPROVER_ensures(g_exc_caught == 1)
 ;
 void process_event_pool(fsm_t* self)
 __CPROVER_requires(g_nproc == 1 && g_pool_runs == 0 && !g_exc)
-__CPROVER_requires(!self->m_event_processing)                                    /*@ob C04.pending-events-run-after-the-step-completed */
+__CPROVER_requires(!self->m_event_processing)                                    /*@ob C04,C10.pending-events-run-after-the-step-completed */
 __CPROVER_requires(g_has_event_pool && g_info != process_info_event_pool)        /*@ob C04,C10.pool-drained-by-the-outermost-call-only */
 __CPROVER_assigns(g_pool_runs, g_exc)
 __CPROVER_ensures(g_pool_runs == 1)
@@ -70,13 +70,13 @@ __CPROVER_requires(g_nproc == 0 && g_ndefer == 0 && g_pool_runs == 0 && g_exc_ca
 __CPROVER_requires(g_has_event_pool || !self->m_event_processing)               /* BOOST_ASSERT of the code: without a pool no nested process_event */
 __CPROVER_requires(info == process_info_event_pool ==> !self->m_event_processing)
 __CPROVER_assigns(self->m_event_processing, self->event_pool.cur_seq_cnt, g_nproc, g_ndefer, g_pool_runs, g_exc_caught, g_handled, g_exc, g_threw, g_nt_calls)
-__CPROVER_ensures(BLOCKED ==> (__CPROVER_return_value == HANDLED_TRUE && g_nproc == 0 && g_ndefer == 0 && g_pool_runs == 0 && self->m_event_processing == __CPROVER_old(self->m_event_processing) && self->event_pool.cur_seq_cnt == __CPROVER_old(self->event_pool.cur_seq_cnt)))   /*@ob C11.blocked-event-is-swallowed-without-any-effect */
-__CPROVER_ensures((!BLOCKED && g_has_event_pool && info != process_info_event_pool && __CPROVER_old(self->m_event_processing)) ==> (g_ndefer == 1 && g_nproc == 0 && g_pool_runs == 0 && self->m_event_processing))   /*@ob C04.event-submitted-during-a-step-is-only-stored */
-__CPROVER_ensures((!BLOCKED && g_has_event_pool && info == process_info_direct_call && !__CPROVER_old(self->m_event_processing) && g_is_deferred_now) ==> (g_ndefer == 1 && g_nproc == 0 && __CPROVER_return_value == HANDLED_DEFERRED))   /*@ob C05.event-deferred-by-an-active-state-is-stored-not-dispatched */
+__CPROVER_ensures(BLOCKED ==> (__CPROVER_return_value == HANDLED_TRUE && g_nproc == 0 && g_ndefer == 0 && g_pool_runs == 0 && self->m_event_processing == __CPROVER_old(self->m_event_processing) && self->event_pool.cur_seq_cnt == __CPROVER_old(self->event_pool.cur_seq_cnt)))   /*@ob C11,C05,C04.blocked-event-is-swallowed-without-any-effect */
+__CPROVER_ensures((!BLOCKED && g_has_event_pool && info != process_info_event_pool && __CPROVER_old(self->m_event_processing)) ==> (g_ndefer == 1 && g_nproc == 0 && g_pool_runs == 0 && self->m_event_processing))   /*@ob C04,C10.event-submitted-during-a-step-is-only-stored */
+__CPROVER_ensures((!BLOCKED && g_has_event_pool && info == process_info_direct_call && !__CPROVER_old(self->m_event_processing) && g_is_deferred_now) ==> (g_ndefer == 1 && g_nproc == 0 && __CPROVER_return_value == HANDLED_DEFERRED))   /*@ob C05,C06.event-deferred-by-an-active-state-is-stored-not-dispatched */
 __CPROVER_ensures((!BLOCKED && !(g_has_event_pool && info != process_info_event_pool && (__CPROVER_old(self->m_event_processing) || (info != process_info_submachine_call && g_is_deferred_now))) && !g_exc) ==> (g_nproc == 1 && g_ndefer == 0 && !self->m_event_processing))   /*@ob C04,C12.one-step-then-machine-not-left-busy */
 __CPROVER_ensures((g_nproc == 1 && g_has_event_pool && info != process_info_event_pool) ==> self->event_pool.cur_seq_cnt == (uint16_t)(__CPROVER_old(self->event_pool.cur_seq_cnt) + 1))   /*@ob C05.every-step-a-machine-takes-starts-a-new-deferral-cycle-of-its-own-pool-whoever-called-it */
 __CPROVER_ensures((g_nproc == 1 && !g_exc && g_has_event_pool && info != process_info_event_pool) ==> g_pool_runs == 1)                        /*@ob C04,C10.pending-events-processed-after-the-step */
-__CPROVER_ensures((g_nproc == 1 && !g_no_exception_thrown && g_threw) ==> (g_exc_caught == 1 && __CPROVER_return_value == HANDLED_FALSE))     /*@ob C12.caught-exception-means-event-not-handled */
+__CPROVER_ensures((g_nproc == 1 && !g_no_exception_thrown && g_threw) ==> (g_exc_caught == 1 && __CPROVER_return_value == HANDLED_FALSE))     /*@ob C12,C06.caught-exception-means-event-not-handled */
 __CPROVER_ensures((g_nproc == 1 && !g_threw && !g_exc) ==> (int)__CPROVER_return_value == g_handled)
 __CPROVER_ensures(!g_no_exception_thrown ==> !g_exc)                                                                                           /*@ob C12.exception-does-not-escape */
 ;
@@ -85,7 +85,7 @@ __CPROVER_ensures(!g_no_exception_thrown ==> !g_exc)                            
 extern int g_ncompl;
 process_result Transition_execute(type_t tr, fsm_t* self, uint8_t region_id, event_t ev)
 __CPROVER_requires(g_ncompl == 0 && !g_exc)
-__CPROVER_requires(!(g_has_blocking_states && (g_flag_terminate || g_flag_interrupted)))       /*@ob C11.blocked-machine-processes-nothing */
+__CPROVER_requires(!(g_has_blocking_states && (g_flag_terminate || g_flag_interrupted)))       /*@ob C11,C04.blocked-machine-processes-nothing */
 __CPROVER_requires(self->m_event_processing)                                     /*@ob C04,C10.completion-transition-runs-with-the-busy-mark-set-events-it-raises-wait-for-the-chain */
 __CPROVER_assigns(g_ncompl, g_handled, g_exc, g_threw)
 __CPROVER_ensures(g_ncompl == 1 && 0 <= g_handled && g_handled <= 7 && (int)__CPROVER_return_value == g_handled)
